@@ -230,9 +230,18 @@ pub fn edits(ctx: &Ctx, total: &mut Collector, tys: &[TyEntry]) {
         return;
     }
     let t0 = std::time::Instant::now();
-    let mut alpha1: Vec<&str> = SIGMA12.to_vec();
-    alpha1.extend_from_slice(&EXTRA);
-    let alpha2: Vec<&str> = if ctx.tier == pv::Tier::Thorough { alpha1.clone() } else { SIGMA12.to_vec() };
+    // 1-symbol edits: every ASCII character plus the non-ASCII ones; 2-symbol edits: Sigma (+ EXTRA in thorough)
+    let ascii: Vec<String> = (0u8..128).map(|b| (b as char).to_string()).collect();
+    let mut alpha1: Vec<&str> = ascii.iter().map(|s| s.as_str()).collect();
+    for s in SIGMA12.iter().chain(EXTRA.iter()) {
+        if !s.is_ascii() {
+            alpha1.push(s);
+        }
+    }
+    let mut alpha2: Vec<&str> = SIGMA12.to_vec();
+    if ctx.tier == pv::Tier::Thorough {
+        alpha2.extend_from_slice(&EXTRA);
+    }
     // jobs: (type index, base string with or without '#')
     let mut jobs: Vec<(usize, String)> = vec![];
     let mut lens: Vec<usize> = vec![];
@@ -281,7 +290,7 @@ pub fn edits(ctx: &Ctx, total: &mut Collector, tys: &[TyEntry]) {
         sub,
         true,
         &format!(
-            "for each of the 10 FromStr impls and each documented digit count {:?}: 2 valid base strings x with/without '#': every 1-symbol substitution and insertion at every position over {} symbols (Sigma + ASCII neighbours of the digit ranges, control chars, fullwidth/Arabic digits, NBSP, BOM), every 2-symbol substitution over {} symbols, every deletion, every byte-length-preserving replacement of 2/3/4 adjacent digits by one 2/3/4-byte character (and two 2-byte ones), a sign in front of every channel group",
+            "for each of the 10 FromStr impls and each documented digit count {:?}: 2 valid base strings x with/without '#': every 1-symbol substitution and insertion at every position over {} symbols (all 128 ASCII characters, U+00E9, U+20AC, U+1D7D8, fullwidth f and 1, Arabic-Indic three, NBSP, BOM), every 2-symbol substitution over {} symbols (Sigma; thorough: + ASCII neighbours of the digit ranges, control chars and the non-ASCII digits), every deletion, every byte-length-preserving replacement of 2/3/4 adjacent digits by one 2/3/4-byte character (and two 2-byte ones), a sign in front of every channel group",
             lens,
             alpha1.len(),
             alpha2.len()
